@@ -173,6 +173,12 @@ var repoVerifier = wallet.NewVerifier()
 // c19Judge runs every transcoding on the vertex built from c.
 func c19Judge(c c19Case) (sig, msg string) {
 	v := c19Build(c)
+	return c19JudgeVertex(v, c.Signed)
+}
+
+// c19JudgeVertex pushes one vertex through every transcoding.
+func c19JudgeVertex(v accountant.Vertex, signed bool) (sig, msg string) {
+	c := struct{ Signed bool }{signed}
 	origValid := c.Signed && ref.VertexValid(&v) // garbage/empty addresses make even a "signed" original invalid
 	check := func(path string, got *accountant.Vertex) (string, string) {
 		if d := vrxDiff(&v, got); d != "" {
